@@ -390,6 +390,13 @@ fn run_adf(id: &str, lines: &[String], out: &mut String) {
             "table" => {
                 writeln!(out, "{} {} table {} {}", id, qid, adf.bdd.nodes.len(), table_string(&adf.bdd)).unwrap();
             }
+            "reseed" => {
+                // Adf::seed again with the seed of the case: the random heuristic starts its stream again
+                if let Some(sd) = seed {
+                    adf.seed([sd; 32]);
+                }
+                writeln!(out, "{} {} reseed", id, qid).unwrap();
+            }
             "validate" => {}
             _ => extra::adf_query(id, &qid, q, &mut adf, &parser, out),
         }
